@@ -146,6 +146,30 @@ class FixedPoint:
         args = []
         for key in func.inputs:
             x = table.get(key)
+            if x is None and getattr(func.inputs[key], 'ranges', None) and \
+                    all(r['name'] in table and table[r['name']][0] == 'r'
+                        for r in func.inputs[key].ranges):
+                # union / intersection of references: one input made of
+                # several areas, each fed with the observed values
+                multi, miss = Ranges(func.inputs[key].ranges), False
+                for r in multi.ranges:
+                    ref = table[r['name']]
+                    val = obs.rect(ref)
+                    if val is None:
+                        miss = True
+                        break
+                    if pinned:
+                        for (b, s, rr, col), v in pinned.items():
+                            if (b, s) == (ref[1], ref[2]) and \
+                                    ref[3] <= rr <= ref[5] and \
+                                    ref[4] <= col <= ref[6]:
+                                val[rr - ref[3], col - ref[4]] = v
+                    multi.values.update(
+                        Ranges().push(r['name'], val).values)
+                if miss:
+                    return 'skip', 'missing input'
+                args.append(multi)
+                continue
             if x is None:
                 return 'oracle-error', 'unmatched input %s of %s' % (key, text)
             if x[0] == 'vn':
